@@ -182,23 +182,26 @@ def applyOut (st : Array (Mut R)) (ci ni cj : Nat) (f : Face) (o : PairOut R) : 
 /-- 5c, innermost: one face `gid` of the voxel list that passed the cell and box tests, for node `ni` of cell `ci` -/
 def pairStep (fn : Fn R) (P : CParams R) (geo : Array (Geo R)) (gf : Array (Nat × Nat)) (ci ni : Nat)
     (st : Array (Mut R)) (gid : Nat) : Array (Mut R) :=
-  match gf[gid]?, geo[ci]? with
-  | some q, some g1 =>
-    match geo[q.1]? with
-    | some g2 =>
-      match g2.faces[q.2]? with
-      | some f =>
-        let fg := g2.fgeom.getD q.2 (vzero, lit 0)
-        let n1 := cnode g1 (st.getD ci emptyMut) ni
-        let cf : CFace R := ⟨fg.1, fg.2, lit 0, g2.k.rep.getD f.ty (lit 0)⟩
-        if pairGate1 P n1 cf then                                     -- n.normal_.dot(f->normal_) < max_dot_product_repulsion_
-          let m2 := st.getD q.1 emptyMut
-          applyOut st ci ni q.1 f
-            (rule1 fn P (ccell ci g1) (ccell q.1 g2) n1 cf (cnode g2 m2 f.a) (cnode g2 m2 f.b) (cnode g2 m2 f.c))
-        else st
-      | none => st
+  match gf[gid]? with
+  | none => st
+  | some q =>
+    match geo[ci]? with
     | none => st
-  | _, _ => st
+    | some g1 =>
+      match geo[q.1]? with
+      | none => st
+      | some g2 =>
+        match g2.faces[q.2]? with
+        | none => st
+        | some f =>
+          let fg := g2.fgeom.getD q.2 (vzero, lit 0)
+          let n1 := cnode g1 (st.getD ci emptyMut) ni
+          let cf : CFace R := ⟨fg.1, fg.2, lit 0, g2.k.rep.getD f.ty (lit 0)⟩
+          if pairGate1 P n1 cf then                                     -- n.normal_.dot(f->normal_) < max_dot_product_repulsion_
+            let m2 := st.getD q.1 emptyMut
+            applyOut st ci ni q.1 f
+              (rule1 fn P (ccell ci g1) (ccell q.1 g2) n1 cf (cnode g2 m2 f.a) (cnode g2 m2 f.b) (cnode g2 m2 f.c))
+          else st
 
 /-- 5c: one node slot.  `cand ci ni` is the list of faces the voxel lookup hands over (other cell ∧ box test passed) -/
 def nodeSearch (fn : Fn R) (P : CParams R) (geo : Array (Geo R)) (gf : Array (Nat × Nat)) (cand : Nat → Nat → List Nat)
@@ -210,17 +213,24 @@ def nodeSearch (fn : Fn R) (P : CParams R) (geo : Array (Geo R)) (gf : Array (Na
     else st
   | none => st
 
-/-- 5b + the voxel lookup of 5c: the grid of this iteration and the candidates of node `ni` of cell `ci` -/
-def gridCandidates (fn : Fn R) (K : Consts R) (cells : List (Cell R)) : Nat → Nat → List Nat :=
+/-- 5b: `face_aabb_lst_` (with the owner cells), `grid_` and its `voxel_lst_` of this iteration, and the node positions -/
+structure GridCtx (R : Type) where
+  rs : List (BP.FaceRec R)
+  g : GDims R
+  grid : List (List Nat)
+  xs : Array (Slots (V3 R))
+
+def mkGrid (fn : Fn R) (K : Consts R) (cells : List (Cell R)) : GridCtx R :=
   let P := cparams K
   let rs := BP.faceRecs P.padding (bfaces cells)
   let g := BP.dims fn K.delta P.voxel P.padding K.inf rs
-  let grid := BP.buildGrid fn g rs
-  let xs := (cells.map fun c => c.pos).toArray
-  fun ci ni =>
-    match xs[ci]? with
-    | some x => BP.candidates fn g grid rs ⟨ci, x.get ni⟩
-    | none => []
+  ⟨rs, g, BP.buildGrid fn g rs, (cells.map fun c => c.pos).toArray⟩
+
+/-- the voxel lookup of 5c: the faces handed over for node `ni` of cell `ci` (other cell ∧ box test passed) -/
+def gridCandidates (fn : Fn R) (ctx : GridCtx R) (ci ni : Nat) : List Nat :=
+  match ctx.xs[ci]? with
+  | some x => BP.candidates fn ctx.g ctx.grid ctx.rs ⟨ci, x.get ni⟩
+  | none => []
 
 /-- the node slots in the order of the two nested loops -/
 def slotOrder (cells : List (Cell R)) : List (Nat × Nat) := Coupling.slotsFrom 0 (cells.map fun c => c.nn)
@@ -228,7 +238,8 @@ def slotOrder (cells : List (Cell R)) : List (Nat × Nat) := Coupling.slotsFrom 
 /-- 5a–5c: couplings, closest distances and forces after the search -/
 def contactSearch (fn : Fn R) (K : Consts R) (cells : List (Cell R)) : Array (Mut R) :=
   let geo := (cells.map Cell.geo).toArray
-  (slotOrder cells).foldl (nodeSearch fn (cparams K) geo (faceIndex cells) (gridCandidates fn K cells))
+  let ctx := mkGrid fn K cells
+  (slotOrder cells).foldl (nodeSearch fn (cparams K) geo (faceIndex cells) (gridCandidates fn ctx))
     (cells.map (resetMut K)).toArray
 
 def writeMut (cells : List (Cell R)) (st : Array (Mut R)) : List (Cell R) :=
@@ -241,10 +252,17 @@ def writeMut (cells : List (Cell R)) (st : Array (Mut R)) : List (Cell R) :=
 def toPop (cells : List (Cell R)) : Coupling.Pop R :=
   cells.map fun c => (List.range c.nn).map fun i => ⟨true, c.coup.getD i none, c.pos.get i⟩
 
+/-- write the couplings and positions of one cell back (one entry per node slot of the cell) -/
+def ofPopCell (c : Cell R) (l : List (Coupling.CNode R)) : Cell R :=
+  let a := l.toArray
+  { c with
+    coup := (Array.range c.nn).map fun i => ((a[i]?).map fun n => n.coup).getD (c.coup.getD i none)
+    pos := ⟨(Array.range c.nn).map fun i => ((a[i]?).map fun n => n.pos).getD (c.pos.get i), c.pos.rest⟩ }
+
 def ofPop (cells : List (Cell R)) (p : Coupling.Pop R) : List (Cell R) :=
   cells.zipIdx.map fun ci =>
     match p[ci.2]? with
-    | some l => { ci.1 with coup := (l.map fun n => n.coup).toArray, pos := ⟨(l.map fun n => n.pos).toArray, ci.1.pos.rest⟩ }
+    | some l => ofPopCell ci.1 l
     | none => ci.1
 
 /-- 5. `contact_node_node_via_coupling::run`; the flag is false when 5d was undefined -/
@@ -259,6 +277,9 @@ def contactRun (fn : Fn R) (K : Consts R) (cells : List (Cell R)) : List (Cell R
 /-- `c2->get_edge(a, b).has_value()`: some face of the cell has the side {a, b} -/
 def hasEdge (F : List Face) (a b : Nat) : Bool := a != b && F.any (fun g => g.hasNodes a b)
 
+/-- the faces of `cell_lst[i]` (their sides are its edge set) -/
+def otherFaces (cells : List (Cell R)) (i : Nat) : Option (List Face) := (cells[i]?).map fun c => c.faces
+
 /-- the body of the face loop of `epithelial_cell::special_polarization_update` (POLARIZATION_MODE_INDEX 1, CONTACT_MODEL_INDEX 1) -/
 def polariseFace (cells : List (Cell R)) (c : Cell R) (fi : Nat) (f : Face) : Face :=
   match c.coup.getD f.a none, c.coup.getD f.b none, c.coup.getD f.c none with
@@ -269,9 +290,9 @@ def polariseFace (cells : List (Cell R)) (c : Cell R) (fi : Nat) (f : Face) : Fa
     let b3 := decide ((lit 0 : R) < V3.dot (c.normal.getD f.c vzero) fnrm)
     if b1 || b2 || b3 then
       if q1.1 = q2.1 ∧ q1.1 = q3.1 then
-        match cells[q1.1]? with
-        | some c2 =>
-          if hasEdge c2.faces q1.2 q2.2 && hasEdge c2.faces q2.2 q3.2 && hasEdge c2.faces q3.2 q1.2
+        match otherFaces cells q1.1 with
+        | some F2 =>
+          if hasEdge F2 q1.2 q2.2 && hasEdge F2 q2.2 q3.2 && hasEdge F2 q3.2 q1.2
           then { f with ty := 1 } else { f with ty := 0 }
         | none => f                                                      -- cell_lst[n1_c2_id] out of range: undefined
       else { f with ty := 1 }
@@ -328,11 +349,17 @@ def topo (cells : List (Cell R)) : List (Integ.CellT R) :=
 def toDyn (cells : List (Cell R)) : Integ.DynS R :=
   cells.map fun c => (List.range c.nn).map fun i => ⟨c.pos.get i, c.mom.getD i V3.zero, c.force.getD i V3.zero⟩
 
+def ofDynCell (c : Cell R) (l : List (Integ.Dyn R)) : Cell R :=
+  let a := l.toArray
+  { c with
+    pos := ⟨(Array.range c.nn).map fun i => ((a[i]?).map fun n => n.pos).getD (c.pos.get i), c.pos.rest⟩
+    mom := (Array.range c.nn).map fun i => ((a[i]?).map fun n => n.mom).getD (c.mom.getD i V3.zero)
+    force := (Array.range c.nn).map fun i => ((a[i]?).map fun n => n.force).getD (c.force.getD i V3.zero) }
+
 def ofDyn (cells : List (Cell R)) (d : Integ.DynS R) : List (Cell R) :=
   cells.zipIdx.map fun ci =>
     match d[ci.2]? with
-    | some l => { ci.1 with pos := ⟨(l.map fun n => n.pos).toArray, ci.1.pos.rest⟩, mom := (l.map fun n => n.mom).toArray,
-                            force := (l.map fun n => n.force).toArray }
+    | some l => ofDynCell ci.1 l
     | none => ci.1
 
 def integrate (K : Consts R) (time : R) (cells : List (Cell R)) : R × List (Cell R) :=
@@ -385,6 +412,14 @@ def stepOk (fn : Fn R) (fx : FX R) (K : Consts R) (s : State R) : Bool :=
 def runOk (fn : Fn R) (fx : FX R) (K : Consts R) : Nat → State R → Bool
   | 0, _ => true
   | n + 1, s => stepOk fn fx K s && runOk fn fx K n (tissueIteration fn fx K s)
+
+/-! ### the tissue placed somewhere else -/
+
+/-- the same cell placed `t` further: every node position is shifted, nothing else changes -/
+def trCell (t : V3 R) (c : Cell R) : Cell R := { c with pos := c.pos.map (fun p => p + t) }
+
+/-- the same tissue placed `t` further -/
+def translate (t : V3 R) (s : State R) : State R := { s with cells := s.cells.map (trCell t) }
 
 /-! ### well-formedness of the meshes and tables (preserved by the iteration; decided by the driver on the initial state) -/
 
